@@ -33,7 +33,10 @@ TLA_CP = "/opt/veriftools/tla/tla2tools.jar:/opt/veriftools/tla/CommunityModules
 
 VARIANTS = {
     # libtins is always compiled with the monitor (DESIGN 2.6)
-    "asan": ["-O1", "-g", "-fsanitize=address,undefined", "-fno-sanitize-recover=undefined",
+    # -fno-sanitize=enum: libtins is C++11, where converting an out-of-range integer to an unscoped enumeration
+    # yields an unspecified value (not undefined behaviour; that changed with CWG 1766 / C++17) and GCC does not
+    # exploit it without -fstrict-enums; reporting every parsed QueryClass/Flags value would be a false alarm.
+    "asan": ["-O1", "-g", "-fsanitize=address,undefined", "-fno-sanitize=enum", "-fno-sanitize-recover=undefined",
              "-fno-omit-frame-pointer"],
     "tsan": ["-O1", "-g", "-fsanitize=thread", "-fno-omit-frame-pointer"],
     "plain": ["-O1", "-g"],
